@@ -5,8 +5,10 @@ package main
 import (
 	"bytes"
 	"errors"
+	"flag"
 	"io"
 	"os"
+	"os/exec"
 	"path/filepath"
 
 	"filippo.io/age"
@@ -145,10 +147,10 @@ func fakeOpenFile(name string, flag int, perm os.FileMode) (*os.File, error) {
 		return nil, errors.New("open " + name + ": no such file or directory")
 	}
 	if !fs.created && flag&os.O_CREATE == 0 {
-		return nil, os.ErrNotExist
+		return nil, errors.New("file does not exist")
 	}
 	if fs.created && flag&os.O_EXCL != 0 {
-		return nil, os.ErrExist
+		return nil, errors.New("file exists")
 	}
 	fs.created = true
 	if flag&os.O_TRUNC != 0 {
@@ -393,5 +395,287 @@ func Harness_C18_cli_recipients_file() {
 	default:
 		V.Reach("accepted")
 		V.Assert(err == nil && len(recs) == keys, "not exactly one recipient per key line")
+	}
+}
+
+// ---------------------------------------------------------------------------
+// C15 at the level of main(): flag combinations and the refusal of an output
+// that names the input, an identity file or a recipients file. Inside the
+// engine the flag package, os.Getwd, os.Open and the four mode functions are
+// replaced by models (function overrides); natively the real binary is built
+// and run in a scratch directory.
+
+type flagModel struct {
+	bools map[string]*bool
+	strs  map[string]*string
+	vars  map[string]flag.Value
+	funcs map[string]func(string) error
+	args  []string
+	apply func()
+}
+
+var fm *flagModel
+var modeReached string
+
+func fakeBoolVar(p *bool, name string, value bool, usage string) { *p = value; fm.bools[name] = p }
+func fakeStringVar(p *string, name string, value string, usage string) {
+	*p = value
+	fm.strs[name] = p
+}
+func fakeVar(v flag.Value, name string, usage string)              { fm.vars[name] = v }
+func fakeFunc(name, usage string, fn func(string) error)          { fm.funcs[name] = fn }
+func fakeParse()                                                   { fm.apply() }
+func fakeNArg() int                                                { return len(fm.args) }
+func fakeArgs() []string                                           { return fm.args }
+func fakeArg(i int) string {
+	if i < 0 || i >= len(fm.args) {
+		return ""
+	}
+	return fm.args[i]
+}
+func fakeGetwd() (string, error)                                   { return "/w", nil }
+func fakeOpenIn(name string) (*os.File, error)                     { return new(os.File), nil }
+func fakeFd(f *os.File) uintptr                                    { return 1 }
+func stubDecryptNotPass(flags identityFlags, in io.Reader, out io.Writer) { modeReached = "decryptNotPass" }
+func stubDecryptPass(in io.Reader, out io.Writer)                  { modeReached = "decryptPass" }
+func stubEncryptPass(in io.Reader, out io.Writer, armor bool)      { modeReached = "encryptPass" }
+func stubEncryptNotPass(recs, files []string, identities identityFlags, in io.Reader, out io.Writer, armor bool) {
+	modeReached = "encryptNotPass"
+}
+
+var spellings = []string{"x", "./x", "d/../x", "/w/x", "y", "./d/x"}
+
+// sameFile is the reference: two spellings name the same file of the working
+// directory /w (lexically, as the property states it).
+func canon(name string) string {
+	switch name {
+	case "x", "./x", "d/../x", "/w/x":
+		return "/w/x"
+	case "y":
+		return "/w/y"
+	case "./d/x":
+		return "/w/d/x"
+	}
+	return name
+}
+
+func runAgeBinary(dir string, args ...string) int {
+	bin := filepath.Join(dir, "age-bin")
+	if out, err := exec.Command("go", "build", "-o", bin, ".").CombinedOutput(); err != nil {
+		panic("go build failed: " + string(out))
+	}
+	cmd := exec.Command(bin, args...)
+	cmd.Dir = filepath.Join(dir, "w")
+	cmd.Stdin = bytes.NewReader(nil)
+	if err := cmd.Run(); err != nil {
+		if ee, ok := err.(*exec.ExitError); ok {
+			return ee.ExitCode()
+		}
+		panic(err)
+	}
+	return 0
+}
+
+// Harness_C15_main_same_file: age -d -i IDFILE -o OUT IN and age -e -R RFILE
+// -o OUT IN with OUT, IDFILE / RFILE and IN spelled in every way of a small
+// set ("x", "./x", "d/../x", absolute, other names): if OUT names the input,
+// the identity file or the recipients file the program exits non-zero before
+// the output is created and before any mode function runs; otherwise it goes
+// on to the mode function.
+func Harness_C15_main_same_file() {
+	decryptMode := V.Bool("decrypt")
+	out := spellings[V.Int("out", 0, len(spellings)-1)]
+	key := spellings[V.Int("key", 0, len(spellings)-1)]
+	in := ""
+	if V.Bool("hasInput") {
+		in = spellings[V.Int("in", 0, len(spellings)-1)]
+	}
+	same := canon(out) == canon(key) || (in != "" && canon(out) == canon(in))
+	if !V.Symbolic() {
+		V.Assume(same) // natively only refusals are replayed (nothing gets decrypted)
+		dir, derr := os.MkdirTemp("", "zzmain")
+		if derr != nil {
+			panic(derr)
+		}
+		defer os.RemoveAll(dir)
+		os.MkdirAll(filepath.Join(dir, "w", "d"), 0700)
+		fix := func(n string) string {
+			if n == "/w/x" {
+				return filepath.Join(dir, "w", "x")
+			}
+			return n
+		}
+		// Real material, so that a run that is NOT refused would succeed and
+		// overwrite the file named by -o: the identity / recipients file and a
+		// valid input for the chosen mode.
+		V.Assume(in == "" || canon(in) != canon(key))
+		id := fixedIdentity()
+		keyContent := []byte(id.String() + "\n")
+		inContent := []byte("plaintext to encrypt")
+		if decryptMode {
+			var enc bytes.Buffer
+			w, _ := age.Encrypt(&enc, id.Recipient())
+			w.Write([]byte("secret"))
+			w.Close()
+			inContent = enc.Bytes()
+		} else {
+			keyContent = []byte(id.Recipient().String() + "\n")
+		}
+		rel := func(n string) string { return filepath.Join(dir, "w", canon(n)[3:]) }
+		os.WriteFile(rel(key), keyContent, 0600)
+		if in != "" {
+			os.WriteFile(rel(in), inContent, 0600)
+		}
+		args := []string{"-d", "-i", fix(key), "-o", fix(out)}
+		if !decryptMode {
+			args = []string{"-e", "-R", fix(key), "-o", fix(out)}
+		}
+		if in != "" {
+			args = append(args, fix(in))
+		}
+		code := runAgeBinary(dir, args...)
+		V.Reach("refused")
+		b, _ := os.ReadFile(rel(key))
+		V.Assert(bytes.Equal(b, keyContent), "the output names an in-use file but the program went on")
+		if in != "" {
+			b, _ = os.ReadFile(rel(in))
+			V.Assert(bytes.Equal(b, inContent), "the output names an in-use file but the program went on")
+		}
+		V.Assert(code != 0, "the output names an in-use file but the program did not refuse")
+		return
+	}
+	fm = &flagModel{bools: map[string]*bool{}, strs: map[string]*string{}, vars: map[string]flag.Value{}, funcs: map[string]func(string) error{}}
+	fm.apply = func() {
+		*fm.strs["o"] = out
+		if decryptMode {
+			*fm.bools["d"] = true
+			fm.funcs["i"](key)
+		} else {
+			*fm.bools["e"] = true
+			fm.vars["R"].Set(key)
+		}
+		if in != "" {
+			fm.args = []string{in}
+		}
+	}
+	fs = &fsModel{}
+	modeReached = ""
+	V.Override("flag.BoolVar", fakeBoolVar)
+	V.Override("flag.StringVar", fakeStringVar)
+	V.Override("flag.Var", fakeVar)
+	V.Override("flag.Func", fakeFunc)
+	V.Override("flag.Parse", fakeParse)
+	V.Override("flag.NArg", fakeNArg)
+	V.Override("flag.Arg", fakeArg)
+	V.Override("flag.Args", fakeArgs)
+	V.Override("os.Getwd", fakeGetwd)
+	V.Override("os.Open", fakeOpenIn)
+	V.Override("os.Create", fakeCreate)
+	V.Override("os.OpenFile", fakeOpenFile)
+	V.Override("(*os.File).Close", fakeFileClose)
+	V.Override("(*os.File).Fd", fakeFd)
+	V.Override("filippo.io/age/cmd/age.decryptNotPass", stubDecryptNotPass)
+	V.Override("filippo.io/age/cmd/age.decryptPass", stubDecryptPass)
+	V.Override("filippo.io/age/cmd/age.encryptPass", stubEncryptPass)
+	V.Override("filippo.io/age/cmd/age.encryptNotPass", stubEncryptNotPass)
+	os.Args = []string{"age", "x"}
+	code := exitCode(main)
+	if same {
+		V.Reach("refused")
+		V.Assert(modeReached == "" && !fs.created, "the output names an in-use file but the program went on")
+		V.Assert(code != 0, "the output names an in-use file but the program did not refuse")
+	} else {
+		V.Reach("proceeds")
+		V.Assert(code == 0 && modeReached != "", "distinct files were refused")
+	}
+}
+
+// Harness_C15_main_flags: every combination of -d -e -p -a and of the presence
+// of -r, -R and -i (input and output on standard streams): the program exits
+// non-zero exactly for the combinations the synopsis excludes, before any mode
+// function runs, and otherwise enters the mode the flags select.
+func Harness_C15_main_flags() {
+	d, e, p, a := V.Bool("d"), V.Bool("e"), V.Bool("p"), V.Bool("a")
+	r, R, i := V.Bool("r"), V.Bool("R"), V.Bool("i")
+	bad := false
+	want := ""
+	if d {
+		bad = e || a || p || r || R
+		want = "decryptPass"
+		if i {
+			want = "decryptNotPass"
+		}
+	} else {
+		bad = (i && !e) || (!r && !R && !i && !p) || (p && (r || R || i))
+		want = "encryptNotPass"
+		if p {
+			want = "encryptPass"
+		}
+	}
+	if !V.Symbolic() {
+		V.Assume(bad) // natively only refusals are replayed
+		dir, derr := os.MkdirTemp("", "zzflags")
+		if derr != nil {
+			panic(derr)
+		}
+		defer os.RemoveAll(dir)
+		os.MkdirAll(filepath.Join(dir, "w"), 0700)
+		os.WriteFile(filepath.Join(dir, "w", "rfile"), []byte(recA+"\n"), 0600)
+		os.WriteFile(filepath.Join(dir, "w", "ifile"), []byte(idA+"\n"), 0600)
+		var args []string
+		for _, f := range []struct {
+			on   bool
+			args []string
+		}{{d, []string{"-d"}}, {e, []string{"-e"}}, {p, []string{"-p"}}, {a, []string{"-a"}}, {r, []string{"-r", recA}}, {R, []string{"-R", "rfile"}}, {i, []string{"-i", "ifile"}}} {
+			if f.on {
+				args = append(args, f.args...)
+			}
+		}
+		if len(args) == 0 {
+			args = []string{"-o", "-"} // no arguments at all prints the usage (also status 1)
+		}
+		code := runAgeBinary(dir, args...)
+		V.Reach("refused")
+		V.Assert(code != 0, "an excluded flag combination was not refused")
+		return
+	}
+	fm = &flagModel{bools: map[string]*bool{}, strs: map[string]*string{}, vars: map[string]flag.Value{}, funcs: map[string]func(string) error{}}
+	fm.apply = func() {
+		*fm.bools["d"], *fm.bools["e"], *fm.bools["p"], *fm.bools["a"] = d, e, p, a
+		if r {
+			fm.vars["r"].Set(recA)
+		}
+		if R {
+			fm.vars["R"].Set("rfile")
+		}
+		if i {
+			fm.funcs["i"]("ifile")
+		}
+	}
+	fs = &fsModel{}
+	modeReached = ""
+	V.Override("flag.BoolVar", fakeBoolVar)
+	V.Override("flag.StringVar", fakeStringVar)
+	V.Override("flag.Var", fakeVar)
+	V.Override("flag.Func", fakeFunc)
+	V.Override("flag.Parse", fakeParse)
+	V.Override("flag.NArg", fakeNArg)
+	V.Override("flag.Arg", fakeArg)
+	V.Override("flag.Args", fakeArgs)
+	V.Override("os.Getwd", fakeGetwd)
+	V.Override("(*os.File).Fd", fakeFd)
+	V.Override("filippo.io/age/cmd/age.decryptNotPass", stubDecryptNotPass)
+	V.Override("filippo.io/age/cmd/age.decryptPass", stubDecryptPass)
+	V.Override("filippo.io/age/cmd/age.encryptPass", stubEncryptPass)
+	V.Override("filippo.io/age/cmd/age.encryptNotPass", stubEncryptNotPass)
+	os.Args = []string{"age", "x"}
+	code := exitCode(main)
+	if bad {
+		V.Reach("refused")
+		V.Assert(code != 0, "an excluded flag combination was not refused")
+		V.Assert(modeReached == "", "an excluded flag combination reached a mode function")
+	} else {
+		V.Reach("proceeds")
+		V.Assert(code == 0 && modeReached == want, "a permitted flag combination did not enter the mode it selects")
 	}
 }
